@@ -514,6 +514,7 @@ func TestCheck(t *testing.T) {
 	rec.Assume("not asserted: struct names that look like elementary types; an absent primary message; members without a value other than struct references; integers >= 2^53 written as JSON numbers (their reading is property C14 — here they are written as strings)")
 	rec.Assume("each JSON text is hashed 3 times from a fresh Unmarshal (Go map iteration order inside the library differs between evaluations)")
 	kDoc := evid.NewKind(rec, "doc", judgeDoc)
+	cpool := evid.NewPool(rec, "concurrent", judgeDoc, 32)
 	kWallet := evid.NewKind(rec, "wallet", judgeWallet)
 	kABI := evid.NewKind(rec, "abi", judgeABI)
 	rec.Corpus(t)
@@ -525,6 +526,7 @@ func TestCheck(t *testing.T) {
 		for a := range st.AtomTypes {
 			atomTypes[a] = true
 		}
+		cpool.Offer(c)
 		kDoc.Check(rt, c, nt, append(cl, vcl...)...)
 	})
 	rec.Extra("atomic_types_with_message_values", fmt.Sprintf("%d of 100 (shard %d)", len(atomTypes), rec.Shard))
@@ -559,11 +561,13 @@ func TestCheck(t *testing.T) {
 		_, nt := docClasses(d.Stats)
 		kWallet.Check(rt, c, nt, "wallet")
 	})
+	cpool.Run(t, 8, 3, 8)
 }
 
 func TestReplay(t *testing.T) {
 	rec := evid.Start("C04", rule)
 	evid.NewKind(rec, "doc", judgeDoc)
+	evid.NewPool(rec, "concurrent", judgeDoc, 0)
 	evid.NewKind(rec, "wallet", judgeWallet)
 	evid.NewKind(rec, "abi", judgeABI)
 	rec.Replay(t)
